@@ -60,6 +60,12 @@ type Axiom struct {
 	Pkg  string
 }
 
+// LoopLet is a ghost snapshot bound at loop entry.
+type LoopLet struct {
+	Name string
+	Cl   Clause
+}
+
 type Contract struct {
 	Pkg            string
 	Func           string // "(*T).M", "T.M", "F", "F$1"
@@ -69,6 +75,7 @@ type Contract struct {
 	Ensures        []Clause
 	TrustedEnsures []Clause
 	LoopInv        map[int][]Clause
+	LoopLets       map[int][]LoopLet // ghost snapshots taken when the loop is entered ("loop K let name = expr")
 	Modifies       []Clause
 	ModAll         bool // default for unknown callee; contracts default to modifies nothing unless declared
 	HasMod         bool
@@ -399,6 +406,20 @@ func (cs *ContractSet) directive(cur **Contract, body, path string, ln int, pkgP
 				return err
 			}
 			c.LoopInv[k] = append(c.LoopInv[k], cl)
+		case "let":
+			// loop K let name = expr: the value of expr in the state in which the loop is entered
+			i := strings.Index(fs[2], "=")
+			if i <= 0 {
+				return fail("loop K let name = expr")
+			}
+			cl, err := mk(strings.TrimSpace(fs[2][i+1:]))
+			if err != nil {
+				return err
+			}
+			if c.LoopLets == nil {
+				c.LoopLets = map[int][]LoopLet{}
+			}
+			c.LoopLets[k] = append(c.LoopLets[k], LoopLet{Name: strings.TrimSpace(fs[2][:i]), Cl: cl})
 		case "unroll":
 			n, err := strconv.Atoi(strings.TrimSpace(fs[2]))
 			if err != nil {
